@@ -2274,6 +2274,48 @@ def c01i(F, R):
         else:
             R.bad(key, f"`{env['inst'].lower()}` generates the memory fact {r}; the instruction writes {want_val} into the CSR", gp["sp"])
 
+@rule("C11", "C11.j.sharing-is-reported-wherever-it-starts", floor=1)
+def c11j(F, R):
+    """instructions that belong to more than one function are reported whenever there are any - also when the functions only share a tail (two functions that jump, or fall, into a common epilogue) and no function entry lies in the shared part. The report may be limited to the place where a shared stretch begins, but not to nodes that are function entries"""
+    from .facts import path_constraints, bool3, local_inits
+    from .p_parse import parent_map
+    LE = "riscv_analysis::passes::lint_error::LintError"
+    lints = pass_impls(F, LINTPASS)
+    rp = [v for t, v in lints.items() if t.endswith("OverlappingFunctionCheck")]
+    if not rp:
+        raise Anchor("OverlappingFunctionCheck not found")
+    g = F.fn(rp[0])
+    body = g["hir"]["value"]
+    pm = parent_map(body)
+    lets = local_inits(body)
+    pushes = [p_ for p_ in walk(body, pats=False) if p_.get("k") == "MethodCall" and p_["name"] == "push" and p_["args"] and any((callee_of(c) or "") == f"{LE}::NodeInManyFunctions" for c in walk(p_["args"][0], pats=False) if c.get("k") == "Call")]
+    if not pushes:
+        R.bad("shape", "UNEXTRACTABLE: OverlappingFunctionCheck pushes no NodeInManyFunctions", g["sp"])
+        return
+
+    def classify(e):
+        if e.get("k") == "MethodCall" and e["name"] in ("is_some", "is_none") and any(y.get("k") == "MethodCall" and y["name"] in ("is_function_entry_with_func",) for y in walk(e["recv"], pats=False)):
+            return "entry" if e["name"] == "is_some" else "not_entry"
+        if e.get("k") == "MethodCall" and e["name"] in ("is_function_entry", "is_any_entry") and not e["args"]:
+            return "entry"
+        if e.get("k") == "Binary" and e["op"] in ("Gt", "Ge") and any(y.get("k") == "MethodCall" and y["name"] == "functions" for y in walk(e["a"], pats=False)) and isinstance(lit_value(e["b"]), int):
+            return "shared"
+        return None
+    # can some push be reached for a shared node that is not an entry?
+    reachable = False
+    for pu in pushes:
+        okp = True
+        for c, want in path_constraints(pm, pu):
+            v = bool3(c, classify, {"shared": True, "entry": False, "not_entry": True}, lets)
+            if v is not None and v != want:
+                okp = False
+        if okp:
+            reachable = True
+    if reachable:
+        R.ok("shared-non-entry", detail="a node in several functions is reported also when it is no function entry", where=loc(pushes[0]))
+    else:
+        R.bad("shared-non-entry", "NodeInManyFunctions is only pushed for nodes that are function entries: two functions that share a tail (`fn_a: ..; j tail` / `fn_b: ..` falling into `tail: ..; ret`) share instructions without any diagnostic - the sharing is reported when an entry happens to lie in it, not when it exists", loc(pushes[0]))
+
 
 @rule("C11", "C11.f.markup-runs-on-the-pruned-graph", floor=1)
 @rule("C12", "C12.f.markup-runs-on-the-pruned-graph", floor=1)
